@@ -206,8 +206,8 @@ inline void RowBlockContainer<IndexType, DType>::Save(Stream *fo) const {
   fo->Write(field);
   fo->Write(index);
   fo->Write(value);
-  fo->Write(&max_field, sizeof(IndexType));
-  fo->Write(&max_index, sizeof(IndexType));
+  fo->Write(max_field);
+  fo->Write(max_index);
 }
 template <typename IndexType, typename DType>
 inline bool RowBlockContainer<IndexType, DType>::Load(Stream *fi) {
@@ -220,8 +220,8 @@ inline bool RowBlockContainer<IndexType, DType>::Load(Stream *fi) {
   CHECK(fi->Read(&field)) << "Bad RowBlock format";
   CHECK(fi->Read(&index)) << "Bad RowBlock format";
   CHECK(fi->Read(&value)) << "Bad RowBlock format";
-  CHECK(fi->Read(&max_field, sizeof(IndexType))) << "Bad RowBlock format";
-  CHECK(fi->Read(&max_index, sizeof(IndexType))) << "Bad RowBlock format";
+  CHECK(fi->Read(&max_field)) << "Bad RowBlock format";
+  CHECK(fi->Read(&max_index)) << "Bad RowBlock format";
   return true;
 }
 }  // namespace data
